@@ -440,6 +440,11 @@ func (x *Exec) applyContract(fr *Frame, st *State, fn *ssa.Function, fc *FnContr
 				return nil, fmt.Errorf("contract of %s: assigns %s: %v", fc.Name, a.Text, err)
 			}
 		}
+		if fc.Opts["countcalls"] != "" {
+			// the callee advances the ghost counter of calls through function values: its ensures say by how much
+			x.regionSort[dynCallsRegion] = SArr(SRef, SIdx)
+			st.Heap[dynCallsRegion] = x.C.Fresh("lh_dyncalls", SArr(SRef, SIdx))
+		}
 		// allocation may happen in callee
 		nb := x.C.Fresh("brk", SRef)
 		x.C.Assume(bvCmp("bvuge", nb, st.Brk), "allocator monotone across call")
